@@ -53,6 +53,8 @@ pub struct Req {
     pub dir_gone: bool,
     /// bytes of padding in an extra header field (heads of about 1 KiB make a pipelined batch overrun the 8 KiB buffer)
     pub pad: usize,
+    /// the disk refuses the upload part-way (file size limit of the server's process)
+    pub disk_fail: bool,
 }
 impl Req {
     fn full(&self) -> bool {
@@ -61,7 +63,7 @@ impl Req {
     fn json(&self) -> Value {
         json!({"kind": self.kind, "L": adigits(self.declared), "sent": adigits(self.body.len()), "digest": dg(&self.body),
                "full": self.full(), "expect": self.expect, "answers": self.answers.iter().map(ans_json).collect::<Vec<_>>(),
-               "dirGone": self.dir_gone, "diskFail": false, "rst": false})
+               "dirGone": self.dir_gone, "diskFail": self.disk_fail, "rst": false})
     }
     fn head(&self, path: &str) -> Vec<u8> {
         let mut m = match self.kind {
@@ -435,6 +437,7 @@ pub fn run_gen(args: &Args, mut out: Out) {
                 answers: if fat && k2 != "malformed" { vec![Ans::Normal(200), Ans::Normal(200)] } else { vec![a1, a2] },
                 dir_gone: false,
                 pad: if fat { r.gen_range(700..1300) } else { 0 },
+                disk_fail: false,
             });
         }
         let any_expect = reqs.iter().any(|q| q.expect);
@@ -521,6 +524,7 @@ pub fn run_limits(args: &Args, mut out: Out) {
                                     answers: vec![Ans::Fetch(m), Ans::Normal(200)],
                                     dir_gone: false,
                 pad: 0,
+                disk_fail: false,
                                 };
                                 {
                                     let mut g = server.script.lock().unwrap();
@@ -582,6 +586,7 @@ pub fn run_limits(args: &Args, mut out: Out) {
                 answers: vec![Ans::Fetch(*[100_000u64, 200, u64::MAX].choose(&mut r).unwrap()), outcomes[(round + j) % outcomes.len()].clone()],
                 dir_gone: false,
                 pad: 0,
+                disk_fail: false,
             };
             batch.push((sid, vec![q], cut));
         }
@@ -632,6 +637,7 @@ pub fn run_limits(args: &Args, mut out: Out) {
             answers: vec![Ans::Fetch(100_000), Ans::Normal(200)],
             dir_gone: true,
             pad: 0,
+                disk_fail: false,
         };
         gone_server.script.lock().unwrap().insert(format!("/s{sid}/r1"), (q.answers.clone(), 0));
         servlin::verif::start();
@@ -689,6 +695,73 @@ pub fn run_recv_body(_args: &Args, mut out: Out) {
                 out.ev(sid, "RecvBody", json!({"state":state,"known":known,"L":adigits(if known { l } else { 0 }),"M":adigits(m),"out":outv,"panic":res.is_err()}));
             }
         }
+    }
+    out.finish();
+}
+
+// ------------------------------------------------------------------------------ upload-diskfull
+/// C10, "disk write failure": uploads into a cache directory while the server's process may not grow a file beyond
+/// 4096 bytes (RLIMIT_FSIZE, SIGXFSZ ignored, so the write fails with EFBIG).  The limit is process-wide, so the scenarios
+/// run in a child process whose only regular-file writes are servlin's temp files: the child writes its events to
+/// stderr (a pipe), servlin's own prints go to stdout (/dev/null).
+pub fn run_diskfull(args: &Args, mut out: Out) {
+    let n = args.u64("n", 8);
+    let exe = std::env::current_exe().unwrap();
+    let res = std::process::Command::new(exe)
+        .args(["diskfull-child", "--out", "/dev/stderr", "--n", &n.to_string(), "--seed", &args.seed().to_string()])
+        .stdout(std::process::Stdio::null())
+        .stderr(std::process::Stdio::piped())
+        .output()
+        .unwrap();
+    for line in String::from_utf8_lossy(&res.stderr).lines() {
+        if !line.starts_with('{') {
+            continue;
+        }
+        let Ok(Value::Object(mut m)) = serde_json::from_str::<Value>(line) else { continue };
+        let sid = m.remove("sid").and_then(|v| v.as_u64()).unwrap_or(0);
+        let ev = m.remove("ev").and_then(|v| v.as_str().map(str::to_string)).unwrap_or_default();
+        if out.wants(sid) {
+            out.ev(sid, &ev, Value::Object(m));
+        }
+    }
+    out.finish();
+}
+
+pub fn run_diskfull_child(args: &Args, mut out: Out) {
+    let n = args.u64("n", 8);
+    let mut r = args.rng();
+    safina::timer::start_timer_thread();
+    let executor = safina::executor::Executor::new(2, 4).unwrap();
+    unsafe { libc::signal(libc::SIGXFSZ, libc::SIG_IGN) };
+    let mut old = libc::rlimit { rlim_cur: 0, rlim_max: 0 };
+    unsafe { libc::getrlimit(libc::RLIMIT_FSIZE, &mut old) };
+    for sid in 1..=n {
+        let server = start_server(&executor, 100, true, 5);
+        let len = *[4097usize, 5000, 20_000, 70_000].choose(&mut r).unwrap();
+        let known = sid % 2 == 0;
+        let q = Req {
+            kind: if known { "known" } else { "unknown" },
+            declared: if known { len as u64 } else { 0 },
+            body: body_bytes(sid, 0, len),
+            expect: sid % 4 == 3,
+            answers: vec![Ans::Fetch(1_000_000), Ans::Normal(200)],
+            dir_gone: false,
+            pad: 0,
+            disk_fail: true,
+        };
+        server.script.lock().unwrap().insert(format!("/s{sid}/r1"), (q.answers.clone(), 0));
+        servlin::verif::start();
+        let reqs = vec![q];
+        let lim = libc::rlimit { rlim_cur: 4096, rlim_max: old.rlim_max };
+        unsafe { libc::setrlimit(libc::RLIMIT_FSIZE, &lim) };
+        let sched = if reqs[0].expect { Schedule::PingPong } else { Schedule::Single };
+        let cr = drive_client(server.addr, sid, &reqs, sched, None, &mut r);
+        let ended = wait_conn_end(&[cr.port]);
+        unsafe { libc::setrlimit(libc::RLIMIT_FSIZE, &old) };
+        let recs = servlin::verif::take();
+        let files = count_files(&server);
+        // (the byte count handed to the buffered file writer before its close failed says nothing about the disk: not logged)
+        log_conn(&mut out, sid, &server, &reqs, json!({"diskFull": true, "pingpong": sched == Schedule::PingPong}), &recs, &cr, false, true, ended, files);
     }
     out.finish();
 }
